@@ -359,6 +359,22 @@ class Crate:
             cnt['R1'] += 1
         out.append(s[pos:])
         s = ''.join(out)
+        out = []
+        pos = 0
+        for m in re.finditer(r'\b(u16|u32|u128)::from_le_bytes\(', s):
+            if m.start() < pos:
+                continue
+            pc = match_close(s, m.end() - 1, '(', ')')
+            inner = s[m.end():pc - 1].strip().rstrip(',').strip()
+            if inner.endswith('.try_into()?'):
+                e = inner[:-len('.try_into()?')].strip()
+                out.append(s[pos:m.start()] + 'crate::vx::le_%s(&%s)?' % (m.group(1), e))
+                pos = pc
+                cnt['R1'] += 1
+        out.append(s[pos:])
+        s = ''.join(out)
+        s, n = re.subn(r'\.to_le_bytes\(\)', '.vx_to_le_bytes()', s)
+        cnt["R1'"] += n
         # slice -> array try_into (EUI)
         s, n = re.subn(r'=\s*(data\[[^\]\n]*\])\.try_into\(\)\?;', r'= crate::vx::arr(&\1)?;', s)
         cnt['R1'] += n
